@@ -120,7 +120,7 @@ def bind(chk: Check, tier: str, seed: int):
                                                                       ",".join("%02x" % b for b in stranger))
                 if j % 2:
                     mixed.decode_basic_string(line, already_combined=True)
-                elif len(stranger) <= 8:
+                elif len(stranger) <= 8 and not m["fast"]:      # (a single frame as such; a fast-packet PGN's message only pre-assembled)
                     mixed.decode_basic_string(line)
                 else:
                     mixed.decode_actisense_string("A000001.000 %05X %05X %s" % ((m["src"] << 12) | (m["dst"] << 4) | m["prio"], m["pgn"], stranger.hex().upper()))
